@@ -19,7 +19,7 @@ pub fn property() -> Property {
     Property {
         id: "C14",
         level: "exploration",
-        rule: "Exhaustive matrix of real TLS handshakes against local openssl servers (threads on 127.0.0.1; names mapped with the resolver hook H2) presenting fixture certificates: {leaf chained to the private CA, self-signed, unknown issuer, expired CA-signed leaf, impostor chain = self-signed leaf followed by the genuine certificate and its CA} x {URL host matches the certificate name, differs} x accept_invalid_certs {off,on} x accept_invalid_hostnames {off,on} x private CA added as root {no,yes} x path {direct https, CONNECT through a real loopback proxy thread, https proxy (TLS to the proxy AND nested TLS to the origin; the proxy's certificate is varied separately)} x where the flags/root were set {session, request, clone of the session, session/request with every flag first switched on and then set to its final value, unrelated setters on session and request while the settings are shared with live requests, and a SIBLING request / the ORIGINAL session that must stay unaffected}; plus 'sibling roots' (two sessions/requests that each added a different root, handshaking one after the other in both orders, keep their own anchors) and 'pinned leaf' cells: the self-signed certificate the server presents (valid, or expired) is itself added as a root - validity period and name must still be enforced (whether a valid pinned leaf is anchored is backend-specific: recorded, not judged). Oracle: truth table ok = (anchored or certs_off) and (in validity or certs_off) and (name ok or names_off or certs_off), evaluated with the flags of THAT request; safety (success => ok) is always judged, liveness (ok => success) for the CA->leaf topology on DNS names and whenever certs_off waives everything; the error kind of rejections is recorded; a rejected handshake must not have delivered the request to the server. Non-trivial: every cell; distinct = hash(cell).",
+        rule: "Exhaustive matrix of real TLS handshakes against local openssl servers (threads on 127.0.0.1; names mapped with the resolver hook H2) presenting fixture certificates: {leaf chained to the private CA, self-signed, unknown issuer, expired CA-signed leaf, impostor chain = self-signed leaf followed by the genuine certificate and its CA} x {URL host matches the certificate name, differs} x accept_invalid_certs {off,on} x accept_invalid_hostnames {off,on} x private CA added as root {no,yes} x path {direct https, CONNECT through a real loopback proxy thread, https proxy (TLS to the proxy AND nested TLS to the origin; the proxy's certificate is varied separately)} x where the flags/root were set {session, request, clone of the session, session/request with every flag first switched on and then set to its final value, unrelated setters on session and request while the settings are shared with live requests, and a SIBLING request / the ORIGINAL session that must stay unaffected}; plus 'validity window' cells (certificates minted at run time that expired 90 s / 1 h / 1 d ago or become valid in 2 min / 1 h / 1 d are rejected, one valid from yesterday to tomorrow is accepted), 'sibling roots' (two sessions/requests that each added a different root, handshaking one after the other in both orders, keep their own anchors) and 'pinned leaf' cells: the self-signed certificate the server presents (valid, or expired) is itself added as a root - validity period and name must still be enforced (whether a valid pinned leaf is anchored is backend-specific: recorded, not judged). Oracle: truth table ok = (anchored or certs_off) and (in validity or certs_off) and (name ok or names_off or certs_off), evaluated with the flags of THAT request; safety (success => ok) is always judged, liveness (ok => success) for the CA->leaf topology on DNS names and whenever certs_off waives everything; the error kind of rejections is recorded; a rejected handshake must not have delivered the request to the server. Non-trivial: every cell; distinct = hash(cell).",
         assumptions: &["OpenSSL (server side and native-tls client side) / rustls implement the checks they are asked to perform; fixtures are what their names say (verified with `openssl verify` when generated)", "the system trust store does not contain the private CA (cells 'root not added' would reveal it)"],
         min_nontrivial: |t| t.pick(300, 1_000),
         gens,
@@ -43,6 +43,7 @@ fn gens(tier: Tier) -> Vec<Gen> {
         Gen { name: "connect-proxy", count: direct_cells(), exhaustive: true, run: run_connect_proxy },
         // https proxy: proxy certificate {good for pgood.test, wrong name, selfsigned} x origin cells (strided in quick)
         Gen { name: "ip-literal-hosts", count: (2 * 2 * 2 * 2 * 2 * 2) as u64, exhaustive: true, run: run_ip_literal },
+        Gen { name: "validity-window", count: (7 * 2 * 2) as u64, exhaustive: true, run: run_validity_window },
         Gen { name: "sibling-roots", count: (2 * 2 * 2) as u64, exhaustive: true, run: run_sibling_roots },
         Gen { name: "pinned-leaf", count: 2 * 2 * 2 * 2 * 3, exhaustive: true, run: run_pinned },
         Gen { name: "https-proxy", count: tier.pick(direct_cells(), direct_cells() * 3), exhaustive: tier == Tier::Thorough, run: run_https_proxy },
@@ -492,4 +493,45 @@ fn run_sibling_roots(ctx: &mut Ctx, _rng: &mut Rng, index: u64) {
     }
     ctx.count("sibling_root_pairs", 1);
     ctx.nontrivial(format!("sr{index}").as_bytes());
+}
+
+/// certificates minted at run time relative to the current clock: expired a minute / an hour / a
+/// day ago, valid only from in an hour / a day / a minute - all must be rejected (there is no
+/// tolerance around the validity period, with or without the host-name waiver); a certificate
+/// valid from yesterday to tomorrow is accepted
+fn run_validity_window(ctx: &mut Ctx, _rng: &mut Rng, index: u64) {
+    const DAY: i64 = 86_400;
+    let windows: [(i64, i64, &str); 7] = [
+        (-30 * DAY, -DAY, "expired a day ago"),
+        (-30 * DAY, -3_600, "expired an hour ago"),
+        (-30 * DAY, -90, "expired 90 seconds ago"),
+        (DAY, 30 * DAY, "valid from tomorrow"),
+        (3_600, 30 * DAY, "valid from in an hour"),
+        (120, 30 * DAY, "valid from in two minutes"),
+        (-DAY, DAY, "valid from yesterday to tomorrow"),
+    ];
+    let (nb, na, what) = windows[(index % 7) as usize];
+    let names_off = (index / 7) % 2 == 1;
+    let on_request = (index / 14) % 2 == 1;
+    let in_validity = nb <= 0 && na >= 0;
+    let host = "good.test";
+    let url = format!("https://{host}/c14");
+    let acc: SslAcceptor = crate::bridge::acceptor_minted(nb, na);
+    let srv: Server<ServerResult> = Server::spawn(move |s: TcpStream| serve_tls(&acc, s, OK_RESPONSE));
+    set_resolver_override(host, Some(vec![SocketAddr::from(([127, 0, 0, 1], srv.port))]));
+    let mut s = Session::new();
+    s.connect_timeout(std::time::Duration::from_secs(5));
+    s.read_timeout(std::time::Duration::from_secs(5));
+    let rb = if on_request {
+        s.post(&url).add_root_certificate(tlsfix::load_cert("ca")).danger_accept_invalid_hostnames(names_off)
+    } else {
+        s.add_root_certificate(tlsfix::load_cert("ca"));
+        s.danger_accept_invalid_hostnames(names_off);
+        s.post(&url)
+    };
+    let out = outcome(rb.text("c14 body").send());
+    let saw = saw_request(&srv.finish());
+    ctx.count("validity_window_cells", 1);
+    judge(ctx, "target", in_validity, in_validity, &out, saw, &|| format!("certificate minted now, {what} (chained to the added root, name matches, accept_invalid_hostnames={names_off}, flags on the {})", if on_request { "request" } else { "session" }));
+    ctx.nontrivial(format!("vw{index}").as_bytes());
 }
